@@ -24,7 +24,10 @@ MANIFEST = dict(
          'transition graph of the user phase (5440 distinct cache states); all single accesses, ordered pairs, shortest paths '
          'into distinct states and seeded walks are executed on tests/test_vec/rot_main.bsp and on BSPs synthesised by an '
          'independent encoder for every header layout (v19, v20, v21, L4D2 order, INFRA, Chaos v25, VitaminSource), with '
-         'and without LZMA-compressed lumps and game lumps: save, re-read, compare header, lump versions/flags, raw bytes and '
+         'and without LZMA-compressed lumps and game lumps, and with header version words outside VERSIONS (upper 16 bits set, '
+         'unknown small numbers): save; decode the written file with the independent decoder and compare magic, version word, map '
+         'revision, per-lump version/compressed flag, game-lump flags/versions and untouched lump bytes with the INPUT file as '
+         'decoded by the same decoder (not reader against reader); re-read, compare header, lump versions/flags, raw bytes and '
          'a structural projection of all 21 views with the original, save the same object again, save the result again, '
          'repeat the cycle. Each logged save() must be exactly the pop/access/write steps of the model.',
     design_ref='4 (C10)',
